@@ -28,6 +28,12 @@ def handle (α : Type) [Arith α] [Wire α] : List Sexp → Sexp
     match (LinModel.dec lm : Option (LinModel α)), (ClarabelOutcome.dec out : Option (ClarabelOutcome α)) with
     | some lm, some out => (wrapClarabel lm out).enc lm.vars
     | _, _ => app "err" [.atom "decode"]
+  | [.atom "clarabel-wrap-v", .atom e, .atom pc, lm, out, feas] =>
+    match (LinModel.dec lm : Option (LinModel α)), (ClarabelOutcome.dec out : Option (ClarabelOutcome α)),
+          (ClarabelOutcome.dec feas : Option (ClarabelOutcome α)) with
+    | some lm, some out, some feas =>
+      (wrapClarabelV { emptyModelHandled := e == "1", primalCheck := pc == "1" } lm out feas).enc lm.vars
+    | _, _, _ => app "err" [.atom "decode"]
   | [.atom "as-lp-solution", .list names, .list values, value] =>
     match strs names, optAll (values.map (decNumS (α := α))), (decNumS value : Option α) with
     | some names, some values, some value => (asLpSolution names values value).enc names
